@@ -49,6 +49,7 @@ CONSTANTS Kind,        \* "fixed" | "variable": record type of the source bucket
           Depth,       \* comparisons per conjunction (C19 behaviours)
           Deviations,  \* known behaviour of the tree, subset of AllDeviations
           SampleMod, SampleSalt,   \* which conjunctions of >= 2 comparisons are emitted for replay (all are checked)
+          TripleMod,               \* which pairs are extended to conjunctions of 3 (Depth = 3)
           Phase5, Phase60,         \* minute of interval 0 modulo 5 / 60 (target grids of INSERT INTO)
           TgtClasses,              \* subset of 1..4: 1 same timeframe, 2 five times, 3 sixty times coarser, 4 variable 5x
           SampleMod20,             \* which C20 cases outside the always-emitted classes are emitted
@@ -293,7 +294,10 @@ Guards(as, sel, lim) == {d \in Deviations : Guard(d, as, sel, lim)}
 (* C19 behaviours: conjunctions grow one comparison at a time              *)
 (***************************************************************************)
 InitW == conj = <<>> /\ q = 0
+\* all conjunctions of <= 2 comparisons; a third comparison is added to every TripleMod-th pair only
+PairKey(cj) == AtomKey(cj[1]) * 131 + AtomKey(cj[2]) * 337 + SampleSalt
 NextW == /\ Len(conj) < Depth
+         /\ (Len(conj) = 2 => PairKey(conj) % TripleMod = 0)
          /\ \E a \in Atoms : conj' = Append(conj, a)
          /\ UNCHANGED q
 SpecW == InitW /\ [][NextW]_vars
@@ -326,7 +330,8 @@ AltsW(as) == LET F(D) == ImplRows(as, 0 - 1, D) IN Alts(Guards(as, <<>>, 0 - 1),
 GuardsSufficeW == LET as == AtomsOf(conj) IN ImplRows(as, 0 - 1, Guards(as, <<>>, 0 - 1)) = ImplRows(as, 0 - 1, Deviations)
 
 SampledW == \/ Len(conj) = 1
-            \/ (Len(conj) >= 2 /\ (AtomKey(conj[1]) * 131 + AtomKey(conj[2]) * 337 + (IF Len(conj) > 2 THEN AtomKey(conj[3]) * 7 ELSE 0) + SampleSalt) % SampleMod = 0)
+            \/ (Len(conj) = 2 /\ (PairKey(conj) + 1) % SampleMod = 0)
+            \/ (Len(conj) = 3 /\ (AtomKey(conj[3]) * 7 + AtomKey(conj[1])) % SampleMod = 0)
 EmitW == (conj # <<>> /\ SampledW) =>
            LET as == AtomsOf(conj) IN
            PrintT(<<"CASE", ToJson([conj |-> as, expect |-> DeclRows(as), alts |-> AltsW(as)])>>)
